@@ -462,3 +462,5 @@ _quick("C15", "C15_textttl", "every program of 3 Redis-style commands over a str
 _KEEPALIVE = "a request with the keep-alive flag and T = 3 s queued behind a holder that stays; its requester is a binary connection that stays open / a binary connection closed one second later / the stream-less in-process protocol; 12 s through the real sweeps: without a live connection behind it the request ends with TIMEOUT within [T, T+2 s], WaitCount 0, nothing left queued"
 _quick("C18", "C18_keepalive", _KEEPALIVE, ["-witness", "1"], reach=["end", "closed", "alive"])
 _quick("C05", "C18_keepalive", "(also under C18) " + _KEEPALIVE, ["-witness", "1"], reach=["end"])
+
+_quick("C07", "C16_update", "(also under C16) a persisted hold whose holder changes its terms one second later (update: E=200/300, optionally Count 3), 0 / 1 / 3 / 70 s pass, rotation, compaction, restart: the hold comes back with the deadline, Count and Rcount its last update gave it", ["-witness", "1"], reach=["end"])
